@@ -12,7 +12,7 @@ DEFAULT = dict(
     partial_term=True, chords=True, acc=True, sigs=True, grace=True, rest_in_chord=True, sep_chars=False,
     signatures=True, supported_clefs_only=False, others=True, force_clef=False, max_body=10, max_sub=3, max_width=7,
     barlines=True, final_barline=True, numbered_bars=False, null_weight=2, interp_rows=True, rule_iv=True,
-    sig_in_split=False, adjacent_joins=True,
+    sig_in_split=False, adjacent_joins=True, ext_sigs=False,
 )
 
 PROFILES = {
@@ -67,7 +67,7 @@ def _data_cell(draw, P, typ):
     if typ == KERN:
         return draw(G.kern_data_cells(chords=P['chords'], acc=P['acc'], sigs=P['sigs'], grace=P['grace'],
                                       rest_in_chord=P['rest_in_chord'], null_weight=P['null_weight'],
-                                      rule_iv=P['rule_iv']))
+                                      rule_iv=P['rule_iv'], ext=P['ext_sigs']))
     return draw(G.other_data_cells(typ, sep_chars=P['sep_chars']))
 
 
